@@ -27,6 +27,8 @@ def main(tier, seed):
     progs = scenarios.fiber_scenarios(rng, 1500 if tier == "quick" else 25000, nfib=3)
     profcheck.run_scenarios(rep, "fibers", progs, bins, PROP)
     profcheck.run_scenarios(rep, "switchcontexts", scenarios.fiber_switch_context_scenarios(), bins, PROP)
+    # a completion waiting in a finally block belongs to the fiber that is suspended there (its exception, where it was raised, its handlers)
+    profcheck.run_scenarios(rep, "interleaved", scenarios.interleaved_failure_scenarios(("uncaught", "caught-by-caller")), bins, PROP)
     # lifetimes: fibers that returned / were abandoned / resumed / failed, run from the script, a fiber or a nested fiber, kept or dropped
     profcheck.run_scenarios(rep, "fiberlifetimes", scenarios.fiber_lifetime_scenarios(), bins, PROP)
     # fibers whose code lives in another module than their caller's: after every switch each side is back in its own module
